@@ -21,5 +21,6 @@ func All() map[string]sim.Property {
 		"C04": C04{},
 		"C06": C06{},
 		"C07": C07{},
+		"C12": C12{},
 	}
 }
